@@ -11,7 +11,7 @@ EXPLANATION = (
 )
 BOUNDS = {
     "quick": dict(items="1..3 (n=3: kinds L,C,S; default lower bound 0 only for n<=2)", bound_tolerance="0.5 rounding + 1e-4 (soft walls of weight 1e10: displacement <= n*2e4/1e10)", value_box="targets in [-1e4,1e4], widths in (0,1000], spacing in [0,50], lower bound in [-1e4,1e4] (negative and fractional included), upper in [-1e4,3e4], either order"),
-    "thorough": dict(items="1..4 (n=4: kinds L,S with one bound, kind L with two bounds)"),
+    "thorough": dict(items="1..4 (n=4: kinds L,S with one bound)"),
 }
 OUTSIDE = ["layers of more than 4 items", "IEEE-754 rounding", "the width handed to the layering step (checked in C04's Force harness)"]
 ASSUMPTIONS = ["floats as exact reals; round() ties-to-even", "Solver.solve cost test over-approximated"]
@@ -45,8 +45,7 @@ def _layer_configs(tier):
         if x.get("default_minpos"):
             x["name"] += "-defaultmin"
     if tier != "quick":
-        c += layer.make_configs([4], walls=("l", "r"), kinds="LS", extra=dict(shards=2))
-        c += layer.make_configs([4], walls=("lr",), kinds="L", extra=dict(shards=16))
+        c += layer.make_configs([4], walls=("l", "r"), kinds="LS", extra=dict(shards=4))
     return c
 
 
